@@ -125,10 +125,8 @@ Qed.
 
 (* ---------------------------------------------------------------------------------------------- *)
 (* one character / one <n> *)
-Definition upper_ascii_ok (upper : N -> list N) : Prop := forall c, (c < 128)%N -> upper c = ascii_upper c.
-
-Lemma ascii_upper_ok : upper_ascii_ok ascii_upper.
-Proof. intros c _. reflexivity. Qed.
+Lemma ascii_up_fold c : ascii_up c = fold_case c.
+Proof. reflexivity. Qed.
 
 Lemma accepted_char_ascii ch : accepted_char ch = true -> (ch < 128)%N.
 Proof.
@@ -136,39 +134,37 @@ Proof.
   unfold fold_case in H. destruct ((97 <=? ch)%N && (ch <=? 122)%N)%bool eqn:E; lia.
 Qed.
 
-Lemma char_code_good upper ch :
-  upper_ascii_ok upper -> accepted_char ch = true ->
-  exists k, char_code rad50_table upper ch = (k, false) /\ 0 <= k < 40 /\ char_of_code k = Some (fold_case ch).
+Lemma char_code_good ch :
+  accepted_char ch = true ->
+  exists k, char_code rad50_table ch = (k, false) /\ 0 <= k < 40 /\ char_of_code k = Some (fold_case ch).
 Proof.
-  intros U H. pose proof (accepted_char_ascii _ H) as Hlt.
-  unfold char_code. rewrite (U _ Hlt). unfold ascii_upper. fold (fold_case ch).
+  intros H. pose proof (accepted_char_ascii _ H) as Hlt.
+  unfold char_code. replace (128 <=? ch)%N with false by lia. rewrite ascii_up_fold.
   unfold accepted_char in H. apply in_alphabet_In in H.
   destruct (index_of_alphabet _ H) as [k [E [R C]]]. rewrite E. exists k. auto.
 Qed.
 
-Lemma char_code_range upper ch : 0 <= fst (char_code rad50_table upper ch) < 40.
+Lemma char_code_range ch : 0 <= fst (char_code rad50_table ch) < 40.
 Proof.
-  unfold char_code. destruct (upper ch) as [|u [|u' r]]; simpl; try lia.
-  destruct (index_of rad50_table u) as [i|] eqn:E; simpl; [|lia]. eapply index_of_range; eauto.
+  unfold char_code. destruct (128 <=? ch)%N; simpl; [lia|].
+  destruct (index_of rad50_table (ascii_up ch)) as [i|] eqn:E; simpl; [|lia]. eapply index_of_range; eauto.
 Qed.
 
-(* a character is refused unless its upper-case form is one alphabet character *)
-Lemma char_code_bad upper ch :
-  (forall u, upper ch = [u] -> ~ In u alphabet) -> snd (char_code rad50_table upper ch) = true.
+(* a character that is not an alphabet character in either ASCII case is refused: any code point *)
+Lemma char_code_bad ch : accepted_char ch = false -> snd (char_code rad50_table ch) = true.
 Proof.
-  intros H. unfold char_code. destruct (upper ch) as [|u [|u' r]] eqn:E; simpl; try reflexivity.
-  destruct (index_of rad50_table u) as [i|] eqn:E2; simpl; [|reflexivity].
-  exfalso. apply (H u eq_refl). eapply index_of_In; eauto.
+  intros H. unfold char_code. destruct (128 <=? ch)%N; simpl; [reflexivity|].
+  destruct (index_of rad50_table (ascii_up ch)) as [i|] eqn:E2; simpl; [|reflexivity].
+  apply index_of_In in E2. rewrite ascii_up_fold in E2. apply in_alphabet_In in E2.
+  unfold accepted_char in H. congruence.
 Qed.
 
-Lemma char_code_accepts upper ch k :
-  char_code rad50_table upper ch = (k, false) ->
-  exists u, upper ch = [u] /\ In u alphabet /\ char_of_code k = Some u.
+Lemma char_code_accepts ch k :
+  char_code rad50_table ch = (k, false) -> accepted_char ch = true /\ char_of_code k = Some (fold_case ch).
 Proof.
-  unfold char_code. destruct (upper ch) as [|u [|u' r]] eqn:E; try (intros H; inversion H; fail).
-  destruct (index_of rad50_table u) as [i|] eqn:E2; intros H; inversion H; subst.
-  exists u. split; [reflexivity|]. pose proof (index_of_In _ _ E2) as Hin. split; [exact Hin|].
-  destruct (index_of_alphabet _ Hin) as [k' [E3 [_ C]]]. congruence.
+  intros H. destruct (accepted_char ch) eqn:A.
+  - split; [reflexivity|]. destruct (char_code_good ch A) as [k' [E [_ C]]]. congruence.
+  - pose proof (char_code_bad ch A) as B. rewrite H in B. discriminate B.
 Qed.
 
 Lemma angle_code_range n : 0 <= fst (angle_code n) < 40.
@@ -184,16 +180,16 @@ Proof. intros H. unfold angle_code. destruct (n <? 0) eqn:A; simpl; [reflexivity
 (* chunks -> codes *)
 Definition codes_ok (ks : list Z) : Prop := Forall (fun k => 0 <= k < 40) ks.
 
-Lemma chunk_codes_range upper cs : codes_ok (fst (chunk_codes rad50_table upper cs)).
+Lemma chunk_codes_range cs : codes_ok (fst (chunk_codes rad50_table cs)).
 Proof.
   induction cs as [|c rest IH]; simpl; [constructor|].
   destruct c as [s|n].
-  - destruct (chunk_codes rad50_table upper rest) as [ks es]. simpl in *.
+  - destruct (chunk_codes rad50_table rest) as [ks es]. simpl in *.
     apply Forall_app. split; [|exact IH].
     apply Forall_forall. intros k Hk. apply in_map_iff in Hk. destruct Hk as [p [Hp Hin]].
     apply in_map_iff in Hin. destruct Hin as [ch [Hch _]]. subst. apply char_code_range.
   - pose proof (angle_code_range n) as R. destruct (angle_code n) as [k e].
-    destruct (chunk_codes rad50_table upper rest) as [ks es]. simpl in *. constructor; assumption.
+    destruct (chunk_codes rad50_table rest) as [ks es]. simpl in *. constructor; assumption.
 Qed.
 
 (* what a list of chunks spells: a string chunk its case-folded characters, <n> the n-th character *)
@@ -211,21 +207,21 @@ Definition good_chunk (c : chunk) : Prop :=
 
 Definition code_of_char (k : Z) (c : N) : Prop := 0 <= k < 40 /\ char_of_code k = Some c.
 
-Lemma chunk_codes_good upper cs :
-  upper_ascii_ok upper -> Forall good_chunk cs ->
-  exists ks, chunk_codes rad50_table upper cs = (ks, []) /\ Forall2 code_of_char ks (flat_map chunk_text cs).
+Lemma chunk_codes_good cs :
+  Forall good_chunk cs ->
+  exists ks, chunk_codes rad50_table cs = (ks, []) /\ Forall2 code_of_char ks (flat_map chunk_text cs).
 Proof.
-  intros U H. induction H as [|c rest Hc Hrest IH]; simpl.
+  intros H. induction H as [|c rest Hc Hrest IH]; simpl.
   - exists []. split; [reflexivity|constructor].
   - destruct IH as [ks [E F]]. destruct c as [s|n]; simpl in Hc.
     + rewrite E.
-      assert (X : exists ks', map fst (map (char_code rad50_table upper) s) = ks' /\
-                   flat_map (fun p => err_if (snd p) "invalid-character") (map (char_code rad50_table upper) s) = [] /\
+      assert (X : exists ks', map fst (map (char_code rad50_table) s) = ks' /\
+                   flat_map (fun p => err_if (snd p) "invalid-character") (map (char_code rad50_table) s) = [] /\
                    Forall2 code_of_char ks' (map fold_case s)).
-      { clear -U Hc. induction Hc as [|ch s' Hch _ IHs]; simpl.
+      { clear -Hc. induction Hc as [|ch s' Hch _ IHs]; simpl.
         - exists []. repeat split; constructor.
         - destruct IHs as [ks' [E1 [E2 F]]].
-          destruct (char_code_good upper ch U Hch) as [k [Ek [Rk Ck]]].
+          destruct (char_code_good ch Hch) as [k [Ek [Rk Ck]]].
           rewrite Ek. simpl. rewrite E1, E2. exists (k :: ks'). repeat split. constructor; [split; assumption | exact F]. }
       destruct X as [ks' [E1 [E2 F']]]. rewrite E1, E2. exists (ks' ++ ks). split; [reflexivity|].
       simpl. apply Forall2_app; assumption.
@@ -234,32 +230,32 @@ Proof.
 Qed.
 
 (* errors are reported for a bad <n> and for a bad character, whatever else the operand holds *)
-Lemma chunk_codes_bad_code upper cs n :
-  In (Code n) cs -> n < 0 \/ 40 <= n -> In "value-out-of-bounds"%string (snd (chunk_codes rad50_table upper cs)).
+Lemma chunk_codes_bad_code cs n :
+  In (Code n) cs -> n < 0 \/ 40 <= n -> In "value-out-of-bounds"%string (snd (chunk_codes rad50_table cs)).
 Proof.
   intros Hin Hn. induction cs as [|c rest IH]; [destruct Hin|].
   simpl. destruct Hin as [->|Hin].
   - pose proof (angle_code_bad n Hn) as B. destruct (angle_code n) as [k e]. simpl in B. subst e.
-    destruct (chunk_codes rad50_table upper rest) as [ks es]. simpl. left. reflexivity.
+    destruct (chunk_codes rad50_table rest) as [ks es]. simpl. left. reflexivity.
   - specialize (IH Hin). destruct c as [s|m].
-    + destruct (chunk_codes rad50_table upper rest) as [ks es]. simpl in *. apply in_or_app. right. exact IH.
-    + destruct (angle_code m) as [k e]. destruct (chunk_codes rad50_table upper rest) as [ks es]. simpl in *.
+    + destruct (chunk_codes rad50_table rest) as [ks es]. simpl in *. apply in_or_app. right. exact IH.
+    + destruct (angle_code m) as [k e]. destruct (chunk_codes rad50_table rest) as [ks es]. simpl in *.
       apply in_or_app. right. exact IH.
 Qed.
 
-Lemma chunk_codes_bad_char upper cs s ch :
-  In (Str s) cs -> In ch s -> (forall u, upper ch = [u] -> ~ In u alphabet) ->
-  In "invalid-character"%string (snd (chunk_codes rad50_table upper cs)).
+Lemma chunk_codes_bad_char cs s ch :
+  In (Str s) cs -> In ch s -> accepted_char ch = false ->
+  In "invalid-character"%string (snd (chunk_codes rad50_table cs)).
 Proof.
   intros Hin Hch Hbad. induction cs as [|c rest IH]; [destruct Hin|].
   simpl. destruct Hin as [->|Hin].
-  - destruct (chunk_codes rad50_table upper rest) as [ks es]. simpl. apply in_or_app. left.
-    apply in_flat_map. exists (char_code rad50_table upper ch). split.
+  - destruct (chunk_codes rad50_table rest) as [ks es]. simpl. apply in_or_app. left.
+    apply in_flat_map. exists (char_code rad50_table ch). split.
     + apply in_map. exact Hch.
-    + rewrite (char_code_bad upper ch Hbad). simpl. left. reflexivity.
+    + rewrite (char_code_bad ch Hbad). simpl. left. reflexivity.
   - specialize (IH Hin). destruct c as [s'|m].
-    + destruct (chunk_codes rad50_table upper rest) as [ks es]. simpl in *. apply in_or_app. right. exact IH.
-    + destruct (angle_code m) as [k e]. destruct (chunk_codes rad50_table upper rest) as [ks es]. simpl in *.
+    + destruct (chunk_codes rad50_table rest) as [ks es]. simpl in *. apply in_or_app. right. exact IH.
+    + destruct (angle_code m) as [k e]. destruct (chunk_codes rad50_table rest) as [ks es]. simpl in *.
       apply in_or_app. right. exact IH.
 Qed.
 
@@ -352,15 +348,15 @@ Qed.
 
 (* ---------------------------------------------------------------------------------------------- *)
 (* the directive *)
-Theorem rad50_directive upper cs :
-  upper_ascii_ok upper -> Forall good_chunk cs ->
-  exists ws, rad50 rad50_table upper cs = Ok (flat_map le16 ws) /\
+Theorem rad50_directive cs :
+  Forall good_chunk cs ->
+  exists ws, rad50 rad50_table cs = Ok (flat_map le16 ws) /\
              words_of_bytes (flat_map le16 ws) = ws /\
              Forall (fun w => 0 <= w < 64000) ws /\
              decode ws = Some (pad3 32%N (flat_map chunk_text cs)).
 Proof.
-  intros U G. destruct (chunk_codes_good upper cs U G) as [ks [E F]].
-  pose proof (chunk_codes_range upper cs) as R. rewrite E in R. simpl in R.
+  intros G. destruct (chunk_codes_good cs G) as [ks [E F]].
+  pose proof (chunk_codes_range cs) as R. rewrite E in R. simpl in R.
   destruct (pack_words_spec (length ks) ks (le_n _) R) as [ws [P [W D]]].
   exists ws. unfold rad50. rewrite E, P. simpl. split; [reflexivity|].
   split; [apply words_of_le16; exact W|]. split; [exact W|].
@@ -368,70 +364,66 @@ Proof.
 Qed.
 
 (* a plain string: the property text verbatim *)
-Corollary rad50_string upper s :
-  upper_ascii_ok upper -> Forall (fun ch => accepted_char ch = true) s ->
-  exists ws, rad50 rad50_table upper [Str s] = Ok (flat_map le16 ws) /\
+Corollary rad50_string s :
+  Forall (fun ch => accepted_char ch = true) s ->
+  exists ws, rad50 rad50_table [Str s] = Ok (flat_map le16 ws) /\
              Forall (fun w => 0 <= w < 64000) ws /\
              decode ws = Some (expected_text s).
 Proof.
-  intros U G. destruct (rad50_directive upper [Str s] U) as [ws [E [_ [W D]]]].
+  intros G. destruct (rad50_directive [Str s]) as [ws [E [_ [W D]]]].
   - constructor; [exact G|constructor].
   - exists ws. split; [exact E|]. split; [exact W|]. simpl in D. rewrite app_nil_r in D. exact D.
 Qed.
 
 (* the model never takes the struct.error / ValueError path: '.rad50' ends in bytes or in reported errors *)
-Lemma rad50_total upper cs :
-  (exists bs, rad50 rad50_table upper cs = Ok bs /\ snd (chunk_codes rad50_table upper cs) = []) \/
-  (exists ids, rad50 rad50_table upper cs = Err ids /\ ids = snd (chunk_codes rad50_table upper cs) /\ ids <> []).
+Lemma rad50_never_crashes cs :
+  (exists bs, rad50 rad50_table cs = Ok bs /\ snd (chunk_codes rad50_table cs) = []) \/
+  (exists ids, rad50 rad50_table cs = Err ids /\ ids = snd (chunk_codes rad50_table cs) /\ ids <> []).
 Proof.
-  pose proof (chunk_codes_range upper cs) as R. unfold rad50.
-  destruct (chunk_codes rad50_table upper cs) as [ks es]. simpl in R.
+  pose proof (chunk_codes_range cs) as R. unfold rad50.
+  destruct (chunk_codes rad50_table cs) as [ks es]. simpl in R.
   destruct (pack_words_spec (length ks) ks (le_n _) R) as [ws [P _]]. rewrite P. simpl.
   destruct es as [|e es']; [left; eauto | right]. exists (e :: es'). repeat split. discriminate.
 Qed.
 
-Theorem rad50_bad_code upper cs n :
+Theorem rad50_bad_code cs n :
   In (Code n) cs -> n < 0 \/ 40 <= n ->
-  exists ids, rad50 rad50_table upper cs = Err ids /\ In "value-out-of-bounds"%string ids.
+  exists ids, rad50 rad50_table cs = Err ids /\ In "value-out-of-bounds"%string ids.
 Proof.
-  intros Hin Hn. pose proof (chunk_codes_bad_code upper cs n Hin Hn) as B.
-  destruct (rad50_total upper cs) as [[bs [_ E]]|[ids [E [I _]]]].
+  intros Hin Hn. pose proof (chunk_codes_bad_code cs n Hin Hn) as B.
+  destruct (rad50_never_crashes cs) as [[bs [_ E]]|[ids [E [I _]]]].
   - rewrite E in B. destruct B.
   - exists ids. split; [exact E|]. rewrite I. exact B.
 Qed.
 
-Theorem outside_alphabet_error upper cs s ch :
-  In (Str s) cs -> In ch s -> (forall u, upper ch = [u] -> ~ In u alphabet) ->
-  exists ids, rad50 rad50_table upper cs = Err ids /\ In "invalid-character"%string ids.
+Theorem outside_alphabet_error cs s ch :
+  In (Str s) cs -> In ch s -> accepted_char ch = false ->
+  exists ids, rad50 rad50_table cs = Err ids /\ In "invalid-character"%string ids.
 Proof.
-  intros Hin Hch Hbad. pose proof (chunk_codes_bad_char upper cs s ch Hin Hch Hbad) as B.
-  destruct (rad50_total upper cs) as [[bs [_ E]]|[ids [E [I _]]]].
+  intros Hin Hch Hbad. pose proof (chunk_codes_bad_char cs s ch Hin Hch Hbad) as B.
+  destruct (rad50_never_crashes cs) as [[bs [_ E]]|[ids [E [I _]]]].
   - rewrite E in B. destruct B.
   - exists ids. split; [exact E|]. rewrite I. exact B.
 Qed.
 
-(* conversely: if '.rad50' succeeds, every character upper-cases to one alphabet character and every
-   <n> is a code *)
-Definition chunk_accepted (upper : N -> list N) (c : chunk) : Prop :=
-  match c with
-  | Str s => Forall (fun ch => exists u, upper ch = [u] /\ In u alphabet) s
-  | Code n => 0 <= n < 40
-  end.
+(* kept for Proofs/AsmTotal.v (another property's file), which still passes a first argument *)
+Lemma rad50_total {A} (_ : A) cs :
+  (exists bs, rad50 rad50_table cs = Ok bs /\ snd (chunk_codes rad50_table cs) = []) \/
+  (exists ids, rad50 rad50_table cs = Err ids /\ ids = snd (chunk_codes rad50_table cs) /\ ids <> []).
+Proof. apply rad50_never_crashes. Qed.
+Definition ascii_upper (c : N) : list N := [ascii_up c].
 
-Theorem rad50_ok_only_if upper cs bs :
-  rad50 rad50_table upper cs = Ok bs -> Forall (chunk_accepted upper) cs.
+(* conversely: if '.rad50' succeeds, every character is an alphabet character in either ASCII case and
+   every <n> is a code *)
+Theorem rad50_ok_only_if cs bs :
+  rad50 rad50_table cs = Ok bs -> Forall good_chunk cs.
 Proof.
   intros H. apply Forall_forall. intros c Hc. destruct c as [s|n]; simpl.
-  - apply Forall_forall. intros ch Hch.
-    destruct (upper ch) as [|u [|u' r]] eqn:E.
-    + destruct (outside_alphabet_error upper cs s ch Hc Hch) as [ids [E' _]]; [intros u Hu; congruence|congruence].
-    + destruct (in_dec N.eq_dec u alphabet) as [Hin|Hout]; [eauto|].
-      destruct (outside_alphabet_error upper cs s ch Hc Hch) as [ids [E' _]]; [|congruence].
-      intros u0 Hu. rewrite E in Hu. inversion Hu; subst. exact Hout.
-    + destruct (outside_alphabet_error upper cs s ch Hc Hch) as [ids [E' _]]; [intros u0 Hu; congruence|congruence].
+  - apply Forall_forall. intros ch Hch. destruct (accepted_char ch) eqn:A; [reflexivity|].
+    destruct (outside_alphabet_error cs s ch Hc Hch A) as [ids [E' _]]. congruence.
   - destruct (Z_lt_dec n 0) as [A|A]; [|destruct (Z_le_dec 40 n) as [B|B]; [|lia]].
-    + destruct (rad50_bad_code upper cs n Hc (or_introl A)) as [ids [E _]]. congruence.
-    + destruct (rad50_bad_code upper cs n Hc (or_intror B)) as [ids [E _]]. congruence.
+    + destruct (rad50_bad_code cs n Hc (or_introl A)) as [ids [E _]]. congruence.
+    + destruct (rad50_bad_code cs n Hc (or_intror B)) as [ids [E _]]. congruence.
 Qed.
 
 (* ---------------------------------------------------------------------------------------------- *)
@@ -487,21 +479,17 @@ Proof.
   - rewrite Hc. rewrite (IH Hr). reflexivity.
 Qed.
 
-Lemma flat_map_upper upper s :
-  upper_ascii_ok upper -> Forall lit_char s -> flat_map upper s = map fold_case s.
-Proof.
-  intros U. induction 1 as [|c s' [Hc _] _ IH]; simpl; [reflexivity|].
-  rewrite (U c (accepted_char_ascii _ Hc)). unfold ascii_upper. fold (fold_case c). simpl. rewrite IH. reflexivity.
-Qed.
+Lemma map_ascii_up s : map ascii_up s = map fold_case s.
+Proof. reflexivity. Qed.
 
 (* one accepted character: the table lookup the literal does and the lookup '.rad50' does agree *)
-Lemma accepted_lookup upper c :
-  upper_ascii_ok upper -> accepted_char c = true ->
-  exists k, index_of rad50_table (fold_case c) = Some k /\ char_code rad50_table upper c = (k, false) /\
+Lemma accepted_lookup c :
+  accepted_char c = true ->
+  exists k, index_of rad50_table (fold_case c) = Some k /\ char_code rad50_table c = (k, false) /\
             0 <= k < 40 /\ char_of_code k = Some (fold_case c).
 Proof.
-  intros U H. pose proof (accepted_char_ascii _ H) as Hlt.
-  unfold char_code. rewrite (U _ Hlt). unfold ascii_upper. fold (fold_case c).
+  intros H. pose proof (accepted_char_ascii _ H) as Hlt.
+  unfold char_code. replace (128 <=? c)%N with false by lia. change (ascii_up c) with (fold_case c).
   unfold accepted_char in H. apply in_alphabet_In in H.
   destruct (index_of_alphabet _ H) as [k [E [R C]]]. rewrite E. exists k. auto.
 Qed.
@@ -540,24 +528,23 @@ Proof. reflexivity. Qed.
 
 (* ^Rccc, 1..3 characters, is the word '.rad50' emits for the same characters, and it decodes to the
    upper-cased characters padded with spaces *)
-Theorem literal_spec upper s rest :
-  upper_ascii_ok upper ->
+Theorem literal_spec s rest :
   (1 <= length s <= 3)%nat -> Forall lit_char s ->
   match rest with [] => True | c :: _ => lit_class rad50_table c = false end ->
-  exists w, literal rad50_table upper (s ++ rest) = Ok w /\
-            rad50 rad50_table upper [Str s] = Ok (le16 w) /\
+  exists w, literal rad50_table (s ++ rest) = Ok w /\
+            rad50 rad50_table [Str s] = Ok (le16 w) /\
             0 <= w < 64000 /\
             decode [w] = Some (expected_text s).
 Proof.
-  intros U Hl Hs Hr.
+  intros Hl Hs Hr.
   assert (TW : take_while (lit_class rad50_table) (s ++ rest) = s).
   { apply take_while_app; [|exact Hr]. eapply Forall_impl; [|exact Hs]. intros a A. apply lit_class_iff. exact A. }
   unfold literal. rewrite TW.
   replace (firstn 3 s) with s by (symmetry; apply firstn_all2; lia).
-  rewrite (flat_map_upper upper s U Hs).
+  rewrite map_ascii_up.
   destruct s as [|c1 [|c2 [|c3 [|c4 r]]]]; cbn [length] in Hl; try lia.
   - inversion Hs as [|? ? [A1 _] _]; subst.
-    destruct (accepted_lookup upper c1 U A1) as [k1 [I1 [E1 [R1 C1]]]].
+    destruct (accepted_lookup c1 A1) as [k1 [I1 [E1 [R1 C1]]]].
     destruct (pack_unpack k1 0 0 R1 ltac:(lia) ltac:(lia)) as [_ Rn].
     exists (k1 * 1600 + 0 * 40 + 0).
     cbn [map]. rewrite (pack_to_int_1 _ _ I1).
@@ -567,8 +554,8 @@ Proof.
     split; [lia|].
     apply (decode_one k1 0 0 _ _ _ R1 ltac:(lia) ltac:(lia) C1 char_of_code_0 char_of_code_0).
   - inversion Hs as [|? ? [A1 _] Hs2]; subst. inversion Hs2 as [|? ? [A2 _] _]; subst.
-    destruct (accepted_lookup upper c1 U A1) as [k1 [I1 [E1 [R1 C1]]]].
-    destruct (accepted_lookup upper c2 U A2) as [k2 [I2 [E2 [R2 C2]]]].
+    destruct (accepted_lookup c1 A1) as [k1 [I1 [E1 [R1 C1]]]].
+    destruct (accepted_lookup c2 A2) as [k2 [I2 [E2 [R2 C2]]]].
     destruct (pack_unpack k1 k2 0 R1 R2 ltac:(lia)) as [_ Rn].
     exists (k1 * 1600 + k2 * 40 + 0).
     cbn [map]. rewrite (pack_to_int_2 _ _ _ _ I1 I2).
@@ -578,9 +565,9 @@ Proof.
     split; [lia|].
     apply (decode_one k1 k2 0 _ _ _ R1 R2 ltac:(lia) C1 C2 char_of_code_0).
   - inversion Hs as [|? ? [A1 _] Hs2]; subst. inversion Hs2 as [|? ? [A2 _] Hs3]; subst. inversion Hs3 as [|? ? [A3 _] _]; subst.
-    destruct (accepted_lookup upper c1 U A1) as [k1 [I1 [E1 [R1 C1]]]].
-    destruct (accepted_lookup upper c2 U A2) as [k2 [I2 [E2 [R2 C2]]]].
-    destruct (accepted_lookup upper c3 U A3) as [k3 [I3 [E3 [R3 C3]]]].
+    destruct (accepted_lookup c1 A1) as [k1 [I1 [E1 [R1 C1]]]].
+    destruct (accepted_lookup c2 A2) as [k2 [I2 [E2 [R2 C2]]]].
+    destruct (accepted_lookup c3 A3) as [k3 [I3 [E3 [R3 C3]]]].
     destruct (pack_unpack k1 k2 k3 R1 R2 R3) as [_ Rn].
     exists (k1 * 1600 + k2 * 40 + k3).
     cbn [map]. rewrite (pack_to_int_3 _ _ _ _ _ _ I1 I2 I3).
@@ -594,12 +581,12 @@ Qed.
 
 
 (* an empty literal and one longer than three characters are reported *)
-Theorem literal_bad_length upper text :
+Theorem literal_bad_length text :
   (length (take_while (lit_class rad50_table) text) = 0 \/ 3 < length (take_while (lit_class rad50_table) text))%nat ->
-  ~ exists w, literal rad50_table upper text = Ok w.
+  ~ exists w, literal rad50_table text = Ok w.
 Proof.
   intros H [w E]. unfold literal in E.
-  destruct (pack_to_int rad50_table (flat_map upper (firstn 3 (take_while (lit_class rad50_table) text)))) as [v| | |]; simpl in E; try discriminate.
+  destruct (pack_to_int rad50_table (map ascii_up (firstn 3 (take_while (lit_class rad50_table) text)))) as [v| | |]; simpl in E; try discriminate.
   destruct (take_while (lit_class rad50_table) text) as [|c m] eqn:T; simpl in *.
   - discriminate.
   - destruct H as [H|H]; [discriminate|].
